@@ -18,7 +18,9 @@ EXHAUSTIVE = True
 RULE = ("case = value length x CRC {granted, refused by server, not requested} ; within a case every set of <= D faults over "
         "{lost, bit flip, duplicate} at every segment (first transmissions and retransmissions) and {wrong crc, wrong n, wrong "
         "ss, lost} at the end frame; the value is read with one read() and, for selected lengths, through raw / 4- / 16-byte "
-        "buffered streams with cyclic read-size plans {3,64},{2,50},{1},{6,7},{7,1},{64,3},{5}; non-trivial = executions with >= 1 fault or >= 2 segments")
+        "buffered streams with cyclic read-size plans {3,64},{2,50},{1},{6,7},{7,1},{64,3},{5} and a small read followed by "
+        "read-everything; undisturbed sweep of every length 65..1800 (3600) + 7100, 10000, 20000 with CRC / size indication / "
+        "payload family {pattern, 00, FF, 80, NUL tail, frame-like} rotating; non-trivial = executions with >= 1 fault or >= 2 segments")
 ASSUMPTIONS = [
     "a bit flip without negotiated CRC is undetectable by any client and is excluded by rule",
     "differing data with the same CRC-16 as the server's value (collision) is excluded by rule and counted",
